@@ -8,7 +8,7 @@ VIEW View
 CHECK_DEADLOCK FALSE
 CONSTANT NF = 1
 CONSTANT Methods = {"default", "lsq_linear", "lsq", "fix_stress"}
-CONSTANT MaxDepth = 9
+CONSTANT MaxDepth = 8
 INVARIANT AlignedX
 INVARIANT KeyedStoresX
 INVARIANT PureResultsX
